@@ -34,6 +34,45 @@ def _make(rng, tif, convertible=False, scale=1):
               boundaries=bounds, regen=lambda rng2: _make(rng2, tif, convertible, scale=10))
     v.expect_las = None
     v.model = fm
+    recs = [dict(r) for r in fm.records]
+
+    def corruptor(rng2, data=data, recs=recs):
+        """Damage inside a logical record that is not the first (what the type check looks at stays as it was), mostly in
+        its payload rather than in a physical record header: the file is still taken for a LIS file and read as far as the damaged
+        record, whose *content* no longer makes sense (a table whose component mnemonic is not MNEM, a format specification with another
+        representation code or size, a data record of another length).  Whatever error that is, it is this file's alone."""
+        late = [r for r in recs[1:] if r['end'] - r['start'] > 12]
+        if not late:
+            return 'lis-truncated-in-last-record', data[:max(0, len(data) - 3)]
+        b = bytearray(data)
+        k = rng2.random()
+        tables = [r for r in late if data.find(b'MNEM', r['start'], r['end']) >= 0]
+        if k < 0.4 and tables:
+            # the converter reads CONS tables (well site data): prefer one when there is one
+            cons = [r for r in tables if r.get('name') in (b'CONS', 'CONS')]
+            r = rng2.choice(cons if cons and rng2.random() < 0.8 else tables)
+            i = data.find(b'MNEM', r['start'], r['end'])
+            b[i:i + 4] = rng2.choice([b'LNEM', b'MNEN', b'    ', b'mnem', b'MNE\x00'])
+            return 'lis-table-component-name', bytes(b)
+        dfsrs = [r for r in late if r.get('kind') == 'dfsr' and r['end'] - r['start'] >= 48]
+        if k < 0.6 and dfsrs:
+            # a byte that is not ASCII in the name or the units of the last channel of a format specification (the last 40 bytes
+            # of the record are its datum specification block when no physical record trailer follows; otherwise this lands nearby)
+            r = rng2.choice(dfsrs)
+            i = r['end'] - 40 + rng2.choice([0, 1, 2, 3, 18, 19, 20, 21])
+            b[i] = rng2.choice([0x80, 0xb0, 0xe9, 0xff])
+            return 'lis-dfsr-channel-text-not-ascii', bytes(b)
+        r = rng2.choice(late)
+        # skip the physical record header (4 bytes) and the logical record header (2 bytes) of the record's first physical record
+        lo, hi = r['start'] + 6, r['end']
+        if k < 0.8:
+            for _ in range(rng2.randrange(1, 4)):
+                b[rng2.randrange(lo, hi)] = rng2.getrandbits(8)
+            return 'lis-late-record-bytes:%s' % r.get('kind'), bytes(b)
+        i = rng2.randrange(lo, hi)
+        b[i] = rng2.choice([0, 0xff, 0x80, b[i] ^ 0x40])
+        return 'lis-late-record-byte:%s' % r.get('kind'), bytes(b)
+    v.corruptor = corruptor
     return v
 
 
